@@ -262,7 +262,13 @@ func registerGhostFields(P *Prog) {
 }
 
 func (P *Prog) resolveHooks() error {
-	for _, h := range P.specs.Hooks {
+	all := append(append([]*Hook{}, P.specs.Hooks...), P.specs.OwnedDecl...)
+	defer func() {
+		for _, h := range P.specs.OwnedDecl {
+			P.specs.Owned[h.Key] = true
+		}
+	}()
+	for _, h := range all {
 		var parts []string
 		cur := h.Target
 		for cur.Kind == "sel" {
